@@ -75,7 +75,7 @@ def batch_program(seqs, bi: int) -> Tuple[defx.Program, Dict[str, Any]]:
     base = {"constants": {"K3": 3, "KF": 2.5, "KNEG": -7, "KEXP": "K3 * 4 + 1", "KHEX": "0x20", f"KB{bi}": bi,
                           # floats that need all their digits, computed ones, very small and very large ones
                           "KPI": 3.14159265358979, "KRATE": 30000, "KINV": "1 / KRATE", "KFRAC": 24414.0625, "KTINY": 1.25e-07, "KBIG": 123456789.125, "KTHIRD": "1.0 / 3"},
-            "string_constants": {"SC_A": "alpha", f"SC_B{bi}": "be ta"},
+            "string_constants": {"SC_A": "alpha", f"SC_B{bi}": "be ta", "SC_APO": "operator's console", "SC_PCT": "100% #1 {x} \\t", "SC_EMPTY": ""},
             "aliases": {**ALIASES, "AL_VAR": VAR_TARGETS[bi % len(VAR_TARGETS)], "AL_VAR2": "AL_VAR"}, "host_ids": {"HOST_ONE": 11, f"HOST_B{bi}": 100 + bi},
             "module_ids": {"MOD_ONE": 12, f"MOD_B{bi}": 20 + bi % 70},
             "struct_defs": {n: {"fields": dict(f)} for n, f in NESTED.items()},
